@@ -33,6 +33,7 @@ EXPLANATION += (' R-C05-13: the representative load history of a batch is never 
 EXPLANATION += (' R-C05-11: nothing cached on the FKM-nonlinear recorder or detector survives a later recording call (memo rule).')
 EXPLANATION += (' R-C05-12: the per-point look-up tables of the binned law keep the row order they were built in (shared with R-C07-8).')
 EXPLANATION += (' R-C05-15 (helper shared with the C07 rules): every class search of the binned law the detector evaluates is made with the absolute load itself - no offset, tolerance, rounding or scaling on the search key.')
+EXPLANATION += (' R-C05-16: with per-point look-up tables of the binned law the class of every point is searched in that point\'s own table; a search with the first point\'s load whose result selects the rows of all points is reported (open known finding: four look-up methods).')
 ASSUMPTIONS = ["pd.concat([a, b]) appends b after a"]
 
 LISTS = ["_loads_min", "_loads_max", "_S_min", "_S_max", "_epsilon_min", "_epsilon_max", "_epsilon_min_LF",
@@ -40,7 +41,7 @@ LISTS = ["_loads_min", "_loads_max", "_S_min", "_S_max", "_epsilon_min", "_epsil
 
 
 def run(ctx):
-    for r in (_r1, _r2, _r3, _r4, _r5, _r6, _r7, _r8, _r9, _r10, _r11, _r12, _r13, _r14, _r15):
+    for r in (_r1, _r2, _r3, _r4, _r5, _r6, _r7, _r8, _r9, _r10, _r11, _r12, _r13, _r14, _r15, _r16):
         ctx.attempt(r)
 
 
@@ -787,6 +788,14 @@ def _r10(ctx, own_rule=True):
                                              (f.name, norm_text(cmp_), eps), text=norm_text(cmp_))
     if n == 0:
         raise AnalysisError("no guarded load comparison found in the HCM case analysis")
+
+
+def _r16(ctx):
+    """R-C05-16 (helper `c07.first_point_searches`): with per-point look-up tables the class of a load is searched per point, in
+    that point's own table - not once, with the first point's load, for all points of the batch."""
+    from .c07 import first_point_searches
+    ctx.rule("R-C05-16", floor=1, what="per-point look-up tables: the class of every point is searched in that point's own table")
+    first_point_searches(ctx)
 
 
 def _r15(ctx):
